@@ -522,6 +522,83 @@ func TestRepeatMarshal(t *testing.T) {
 	noteUnjudged(s, "repeat-marshal")
 }
 
+// ---- the bytes Marshal returned stay what they were -------------------------------------------------------------
+//
+// "Encoding ... and decoding the bytes returns the same header fields": the bytes are the caller's from the moment
+// Marshal returns them - they are queued, signed or sent later. Several headers (and several messages) are encoded
+// one after the other, every result is kept as returned (not copied) next to a snapshot of it, and after the last
+// call every kept slice must still equal its snapshot and, for headers, decode to the fields of the header it
+// came from. (An encoder that builds into a recycled buffer passes every check that looks at one result before
+// the next call is made.)
+
+type keptCase struct {
+	Headers  []hdrCase `json:"headers"`
+	Messages []msgCase `json:"messages,omitempty"`
+}
+
+func checkKept(c keptCase) []vf.Finding {
+	type kept struct {
+		who  string
+		got  []byte
+		snap []byte
+		hdr  *hdrCase
+	}
+	var ks []kept
+	for i := range c.Headers {
+		got, err := c.Headers[i].lib().Marshal()
+		if err != nil {
+			continue // header-layout-roundtrip-pid reports a header that does not encode
+		}
+		ks = append(ks, kept{"Header.Marshal", got, append([]byte{}, got...), &c.Headers[i]})
+	}
+	for _, mc := range c.Messages {
+		m, err := mc.build()
+		if err != nil {
+			return []vf.Finding{vf.F("harness", "bad-case", "%v", err)}
+		}
+		got, err := m.Marshal()
+		if err != nil {
+			continue // framing / repeat-marshal report a message that does not encode
+		}
+		ks = append(ks, kept{"Message.Marshal", got, append([]byte{}, got...), nil})
+	}
+	for i, k := range ks {
+		if !bytes.Equal(k.got, k.snap) {
+			d := 0
+			for d < len(k.got) && k.got[d] == k.snap[d] {
+				d++
+			}
+			return []vf.Finding{vf.F(k.who, "returned-bytes-changed-by-later-call", "result %d of %d (%d bytes) differs from byte %d on after the later calls: was %x, is %x", i+1, len(ks), len(k.snap), d, k.snap[d:min(len(k.snap), d+12)], k.got[d:min(len(k.got), d+12)])}
+		}
+		if k.hdr != nil {
+			back := header.NewHeader()
+			if n, err := back.Unmarshal(k.got); err != nil || n != 32 {
+				continue // a header that does not decode from its own bytes at once is header-layout-roundtrip-pid's finding
+			}
+			if bytes.Equal(k.snap, k.hdr.ref()) && (back.Command != codes.CommandCode(k.hdr.Command) || back.Status != k.hdr.Status || back.TID != k.hdr.TID || back.UID != k.hdr.UID || back.MID != k.hdr.MID) {
+				return []vf.Finding{vf.F(k.who, "returned-bytes-changed-by-later-call", "result %d of %d decodes to command %#x status %#x tid %#x uid %#x mid %#x, encoded was %+v", i+1, len(ks), uint8(back.Command), back.Status, back.TID, back.UID, back.MID, *k.hdr)}
+			}
+		}
+	}
+	return nil
+}
+
+func TestMarshalResultsKept(t *testing.T) {
+	s := vf.Begin(t, P, "marshal-results-kept")
+	vf.Rapid(s, vf.N(3000, 40000), func(t *rapid.T) keptCase {
+		var c keptCase
+		for i, n := 0, rapid.IntRange(2, 6).Draw(t, "headers"); i < n; i++ {
+			c.Headers = append(c.Headers, genHdr(t))
+		}
+		for i, n := 0, rapid.IntRange(0, 3).Draw(t, "messages"); i < n; i++ {
+			c.Messages = append(c.Messages, genMsg(t, 24))
+		}
+		return c
+	}, checkKept, func(c keptCase) bool {
+		return len(c.Headers) >= 2 && !bytes.Equal(c.Headers[0].ref(), c.Headers[1].ref())
+	})
+}
+
 // ---- block sizes up to the 255-word / 65535-byte limits ---------------------------------------------------
 //
 // No command structure emits more than a few dozen words, so the limits are reached with raw wire
